@@ -159,7 +159,7 @@ func newWorld(t *testing.T, s *hx.Suite, out *hx.Out, rng *rand.Rand, chain stri
 	s.MintTokenToModule(chain, sdk.NewCoin(fxtypes.DefaultDenom, w.pr.MulRaw(1000)))
 	w.prevLo = w.k.GetLastObservedEventNonce(s.Ctx)
 	frac := p.SlashFraction.BigInt() // Dec mantissa
-	out.Reset(w.threshold.String(), strconv.FormatInt(mult, 10), frac.String())
+	out.Reset(w.threshold.String(), strconv.FormatInt(mult, 10), frac.String(), chain, strconv.FormatUint(window, 10), strconv.Itoa(nO))
 	return w
 }
 
@@ -679,7 +679,7 @@ func (w *world) opEndBlock(blocks int64) string {
 		}
 	}
 	osr := w.k.GetLatestOracleSetNonce(w.s.Ctx) != osn
-	w.out.Emit(fmt.Sprintf("endblock %s %d", joinOr(slashed, ","), b2i(osr)), res+" "+w.observe())
+	w.out.Emit(fmt.Sprintf("endblock %s %d %d", joinOr(slashed, ","), b2i(osr), blocks), res+" "+w.observe())
 	if len(slashed) > 0 {
 		w.out.Count("endblock:slashed")
 	}
@@ -764,7 +764,13 @@ func (w *world) runLine(line string) {
 	case f[0] == "gov" && len(f) >= 2:
 		w.opGov(list(f[1]))
 	case f[0] == "endblock":
-		w.opEndBlock(1)
+		blocks := int64(1)
+		if len(f) >= 4 {
+			if b, err := strconv.ParseInt(f[3], 10, 64); err == nil && b > 0 && b < 50 {
+				blocks = b
+			}
+		}
+		w.opEndBlock(blocks)
 	case f[0] == "exec" && len(f) >= 2:
 		w.opExec(atou(f[1]))
 	}
@@ -789,8 +795,20 @@ func runScript(t *testing.T, out *hx.Out, rng *rand.Rand, path string) {
 					frac = sdkmath.LegacyNewDecFromBigIntWithPrec(m.BigInt(), 18).String()
 				}
 			}
+			chain, window, nO := "eth", uint64(30000), 8
+			if len(f) >= 7 {
+				if f[4] == "bsc" || f[4] == "tron" {
+					chain = f[4]
+				}
+				if v, err := strconv.ParseUint(f[5], 10, 64); err == nil && v > 1 {
+					window = v
+				}
+				if v, err := strconv.Atoi(f[6]); err == nil && v > 0 && v <= 100 {
+					nO = v
+				}
+			}
 			s := hx.NewSuite(t, 2)
-			w = newWorld(t, s, out, rng, "eth", 8, thr, mult, frac, 30000)
+			w = newWorld(t, s, out, rng, chain, nO, thr, mult, frac, window)
 			continue
 		}
 		if w != nil {
